@@ -67,6 +67,19 @@ CHECKS = {
         note='Bounded expression size / operand values; the mechanism model mirrors the code after the repair of D1 (the '
              'old mechanism is kept as deviation D1 and TLC must find its counterexample in every run).',
         design='5/C13'),
+    'C09': dict(
+        engine='spec/Lexer.tla, spec/SymRefs.tla, spec/HereDoc.tla (+ *Export.tla)',
+        technique='TLC enumeration of every source string by a character automaton of the documented syntax + replay '
+                  'of every string in LIST / STRING / :> / here-document context through the real CLI (argv of a real '
+                  'process, file contents); known finding judged by the specification with a named deviation',
+        text='The documented string syntax is a TLA+ character automaton whose every reachable state is a source string; '
+             'TLC checks token-boundary invariants and exports what each of ~30 000 sources (quick) denotes as list, '
+             'string and text-until-end-of-line, a second machine enumerates reference-delimiter strings and a third '
+             'here-document bodies; each is executed and compared character by character, error cases must be '
+             'SYNTAX_ERROR located at the instruction.',
+        note='Bounded source length (4-6 quick, 5-8 thorough); quoted strings spanning lines are not modelled; D2 was '
+             'found and repaired (fix: 4902902); D3 is an open known finding judged by Lexer.tla with Deviations={"D3"}.',
+        design='5/C09'),
 }
 
 NOT_YET = 'check not built yet (planned in DESIGN.md section 5); no claim is made'
